@@ -27,6 +27,7 @@ META = {
         "obligations whose result contains an uninterpreted function (snr_conversions, snr_measurement, snr_eps_lemma, laplacian_transform) run without the harness' model-based differential cross-check; their concrete behaviour is covered by C07.snr_grid (bounded)",
     ],
     "out_of_reach": [
+        "SignalToNoiseRatio.forward on batched COMPLEX input (B > 1): the per-row feasibility query does not terminate reliably in nlsat; proved for unbatched complex and batched real input; batched complex rows are bounded only (C07.snr_grid/metric)",
         "StandardMetrics.signal_to_noise_ratio returns float(...) of the result (concretisation of a symbolic real): bounded only (C07.snr_grid/standard_metrics, dense grid against mpmath)",
         "snr_linear_to_db with zeros among positive entries writes -inf through a mask (non-finite constants in symbolic ITEs are unsupported): bounded only (C07.snr_grid/zero_and_edge)",
         "the unit-variance law of torch.randn itself and the statistical statement (empirical power on 1e6 samples): assumed / follows from the proved algebra; only the deterministic same-seed scaling relation is executed (C07.same_seed_scaling, bounded)",
